@@ -286,6 +286,10 @@ class Env:
         obj['resources'] = []
         for res in spec.get('resources', []):
             cls = Capacities if res.get('kind') == 'capacities' else Resources
+            if len(res['levels']) > 1:
+                # somebody else declared a supply of the same resources before, spelled in
+                # another order, and dropped it (its innards may or may not be collected yet)
+                cls(**dict(reversed(list(res['levels'].items()))))
             obj['resources'].append(cls(**res['levels']))
             self.junk()
         obj['pipes'] = []
